@@ -65,9 +65,9 @@ def rand_assign_spec(g, allow_param=False, allow_null=True):
     if allow_null:
         kinds.append("null")
     if allow_param:
-        kinds += ["param", "param", "bound"]
+        kinds += ["param", "param", "bound", "partial"]
     k = g.choice(kinds)
-    if k in ("lin", "param", "bound"):
+    if k in ("lin", "param", "bound", "partial"):
         return [k, [r2(g, -1.5, 1.5) for _ in range(g.randint(1, 3))], r2(g, -1, 1)]
     return [k]
 
